@@ -7,7 +7,9 @@ exactly these terms.  Statements that are not recognised become `.unknown` (whic
 Recognised: docstrings, comments, `pass`; `try … finally` without handlers; `try … except <class>: …` with one handler and no
 `else` / `finally` (`Exception` -> .exception, bare / `BaseException` -> .all, anything else -> .other);
 `<test>.run(<process_result>)`; `<x> = testtools.ErrorHolder(<a string literal or f-string that starts with "broken-runner">,
-error=sys.exc_info())` followed by `<x>.run(<process_result>)` (one action; any local name); `<queue>.put(<test>)`;
+error=sys.exc_info())` followed by `<x>.run(<process_result>)` (one action; any local name); `<queue>.put(threading.current_thread())` - the worker hands
+its own Thread object back, the key under which `run()` registered it (putting `<test>`, as the code did before the table was keyed by
+thread, is NOT recognised: sub-suites may be unhashable, equal or the same object);
 `<process_result>.stopTestRun()` / `.startTestRun()`.  <test>, <process_result>, <queue> are the parameters, under any names.
 `run()` itself is not translated.
 Harmless rewrites that leave the term unchanged: renamed parameters / locals; the id string bound to a local on its own line
@@ -59,7 +61,7 @@ def block(stmts, p):
             continue
         if u == '%s.run(%s)' % (p[0], p[1]):
             items.append('.act .runTest')
-        elif len(p) > 2 and u == '%s.put(%s)' % (p[2], p[0]):
+        elif len(p) > 2 and u in ('%s.put(threading.current_thread())' % p[2], '%s.put(current_thread())' % p[2]):
             items.append('.act .putFin')
         elif u == '%s.stopTestRun()' % p[1]:
             items.append('.act .stopTestRun')
